@@ -25,6 +25,7 @@ import vlib
 
 LEVEL = "model_checking"
 
+CLAIMED = True   # set by the lead after review; only claimed checks enter MANIFEST.json
 MANIFEST = dict(
     category="model_checking",
     technique="TLA+ spec of the DataProcessor fetch loop and per-command cross-batch state vs whole-sequence reference semantics (TLC exhaustive over chains x tables x ALL chunkings) + replay of every enumerated chunking on the real DataProcessor chain built from SPL text, and e2e through block/segment layout",
